@@ -226,8 +226,8 @@ def _short(p):
 
 
 def _guard_ok(body, setter_call, fld):
-    """The innermost `if` around the setter must test only the same field's accessor."""
-    # parent search
+    """Every conditional around the setter must be the same-field guard (a test reading only that field's accessor) or the
+    registry lookup `if let Some(input) = self.files.get(..)`; and the function has no early `return` besides `?`."""
     parents = {}
     stack = [(body, None)]
     while stack:
@@ -237,24 +237,45 @@ def _guard_ok(body, setter_call, fld):
         parents[id(n)] = p
         for c in H.children(n):
             stack.append((c, n))
+    for n in H.walk(body):
+        if H.kind(n) == "Ret":
+            e = H.peel(n["e"]) if n.get("e") is not None else None
+            if e is not None and ((H.callee(e) or "").endswith("from_residual") or (H.callee(e) or "").endswith("Result::Err")):
+                continue    # error exits: the caller is told the operation failed
+            return False, "an early `return` at line %s (the write is skipped on that path)" % n.get("ln")
     p = parents.get(id(setter_call))
     cur = setter_call
+    guards = []
     while p is not None:
-        if H.kind(p) == "If" and p.get("t") is not None and _inside(p["t"], cur):
-            cond = p["c"]
+        k = H.kind(p)
+        if k == "If" and ((p.get("t") is not None and _inside(p["t"], cur)) or (p.get("e") is not None and _inside(p["e"], cur))):
+            cond = H.peel(p["c"])
+            if H.kind(cond) == "LetExpr":
+                init = [c for _, c in H.calls(cond["init"])]
+                if any(c.startswith("dashmap::DashMap") and c.endswith("::get") for c in init) and _inside(p["t"], cur):
+                    cur, p = p, parents.get(id(p))
+                    continue
+                return False, "an `if let` on %s" % ([c.split("::")[-1] for c in init] or "a value")
             accs = set()
             for n, c in H.calls(cond):
                 m = re.search(r"SourceInput>::(\w+)$", c)
                 if m and not m.group(1).startswith("set_"):
                     accs.add(m.group(1))
-            if accs == {fld}:
-                return True, "a test on `%s` only" % fld
-            return False, "a condition reading %s instead of `%s`" % (sorted(accs) or "no input field", fld)
-        if H.kind(p) == "Closure":
-            break
+            if accs == {fld} and _inside(p["t"], cur):
+                guards.append(fld)
+            else:
+                return False, "a condition reading %s instead of `%s` only" % (sorted(accs) or "no input field", fld)
+        elif k == "Match" and not H.is_try(p) and not p.get("src"):
+            return False, "a match at line %s" % p.get("ln")
+        elif k == "Closure":
+            return False, "a closure (the write may not run)"
+        elif k in ("Loop", "While"):
+            return False, "a loop"
         cur = p
         p = parents.get(id(p))
-    return True, "nothing (unconditional write)"
+    if len(guards) > 1:
+        return False, "more than one guard"
+    return True, ("a test on `%s` only" % fld) if guards else "nothing (unconditional write)"
 
 
 def _inside(tree, node):
